@@ -156,7 +156,8 @@ func (c *Ctx) Nontrivial(key string) { c.nontrivial[key] = struct{}{} }
 
 // Fail records a direct failure of the property's own predicate on the implementation.
 func (c *Ctx) Fail(predicate, signature, detail string, ops []string) {
-	if len(c.direct) < 50 {
+	// keep the first few witnesses of every distinct signature (a flood of one kind must not hide another)
+	if c.hist["direct-failure:"+signature] < 5 && len(c.direct) < 400 {
 		c.direct = append(c.direct, DirectFailure{Predicate: predicate, Signature: signature, Detail: clip(detail, 2000), Ops: ops, Line: c.lines})
 	}
 	c.hist["direct-failure:"+signature]++
